@@ -419,10 +419,60 @@ def command_lists(maxlen):
             yield [a, b, c]
 
 
+def case_history(acc, state, packed, pushes, atomic):
+    """A history of several pushes against one server (disk, optionally with packed refs): every push is
+    judged against the model state left by the previous ones."""
+    o = objs()
+    d = fresh_dir("c06h")
+    try:
+        from dulwich.repo import Repo
+
+        repo = make_repo("disk", os.path.join(d, "srv"), dict(state), packed)
+        repo.close()
+        store = {o[k].id for k in ("b", "t", "c1", "c2", "tag")}
+        cur = dict(state)
+        caps = [b"report-status", b"delete-refs"] + ([b"atomic"] if atomic else [])
+        rpl = rp(case_history, state, packed, [[list(c) for c in p] for p in pushes], atomic)
+        for i, cmds in enumerate(pushes):
+            cmds = [tuple(c) for c in cmds]
+            repo = Repo(os.path.join(d, "srv"))
+            try:
+                needs_pack = any(new != ZERO for _, new, _ in cmds)
+                with_c4 = any(new == o["c4"].id for _, new, _ in cmds)
+                want_rep, want_state = model(cur, store, cmds, atomic, True, with_c4)
+                if with_c4 and any(want_rep[r] == "ok" for _, n_, r in cmds if n_ == o["c4"].id) or with_c4:
+                    store |= {o["c4"].id, o["t4"].id, o["b4"].id}
+                unpack, rep = run_handler(repo, cmds, caps, pack_bytes(with_c4) if needs_pack else None)
+            finally:
+                repo.close()
+            fresh = Repo(os.path.join(d, "srv"))
+            try:
+                final = read_refs(fresh)
+            finally:
+                fresh.close()
+            acc.count("history_pushes")
+            got = {ref: st for ref, (st, _) in rep.items()}
+            desc = "history%s state=%r pushes=%r (push %d)" % ("+packed" if packed else "", nm(state),
+                                                              [[(r.decode().split("/")[-1], nm(a), nm(b)) for a, b, r in p] for p in pushes], i + 1)
+            if got != want_rep:
+                acc.violation("receive-pack:history:report-differs-from-model", "%s: reported %r, expected %r" % (desc, got, want_rep), rpl)
+                return
+            if final != want_state:
+                acc.violation("receive-pack:history:final-refs-differ-from-model", "%s: refs %r, expected %r" % (desc, nm(final), nm(want_state)), rpl)
+                return
+            cur = want_state
+        acc.outcome("history:%d pushes ok" % len(pushes))
+    finally:
+        rmtree(d)
+
+
 def work(task):
     acc = Acc()
     for args in task:
-        case_push(acc, *args)
+        if args[0] == "history":
+            case_history(acc, *args[1:])
+        else:
+            case_push(acc, *args)
     return acc
 
 
@@ -432,16 +482,17 @@ def work(task):
 class PushRace(sysched.Scenario):
     nactors = 2
 
-    def __init__(self, state, cmds0, cmds1, atomic):
+    def __init__(self, state, cmds0, cmds1, atomic, packed=False):
         self.state = state
         self.cmds = [cmds0, cmds1]
         self.atomic = atomic
-        self.name = "race state=%r A=%r B=%r atomic=%s" % (
+        self.packed = packed
+        self.name = ("packed " if packed else "") + "race state=%r A=%r B=%r atomic=%s" % (
             nm(state), [(r.decode().split("/")[-1], nm(a), nm(b)) for a, b, r in cmds0],
             [(r.decode().split("/")[-1], nm(a), nm(b)) for a, b, r in cmds1], atomic)
 
     def setup(self, root):
-        r = make_repo("disk", os.path.join(root, "srv"), self.state)
+        r = make_repo("disk", os.path.join(root, "srv"), self.state, self.packed)
         cfg = r.get_config()
         cfg.set((b"gc",), b"auto", b"0")
         cfg.write_to_path()
@@ -536,8 +587,9 @@ class PushRace(sysched.Scenario):
 
 def work_race(task):
     acc = Acc()
-    state, c0, c1, atomic, bound = task
-    sc = PushRace(state, c0, c1, atomic)
+    state, c0, c1, atomic, bound = task[:5]
+    packed = task[5] if len(task) > 5 else False
+    sc = PushRace(state, c0, c1, atomic, packed)
     st = sysched.explore_scenario(sc, bound, conflict_filter=True)
     acc.count("race_scenarios")
     acc.count("race_executions", st["executions"])
@@ -549,12 +601,12 @@ def work_race(task):
     acc.sample({"scenario": st["scenario"][:200], "executions": st["executions"], "per_preemptions": st["per_preemptions"]}, cap=2)
     for v in st["violations"]:
         acc.violation(v["key"], "%s [schedule %s; %d schedule(s)]" % (v["summary"], v["choices"], v["count"]),
-                      rp("case_race_replay", state, [list(c) for c in c0], [list(c) for c in c1], atomic, v["choices"]))
+                      rp("case_race_replay", state, [list(c) for c in c0], [list(c) for c in c1], atomic, v["choices"], packed))
     return acc
 
 
-def case_race_replay(acc, state, c0, c1, atomic, choices):
-    sc = PushRace(state, [tuple(c) for c in c0], [tuple(c) for c in c1], atomic)
+def case_race_replay(acc, state, c0, c1, atomic, choices, packed=False):
+    sc = PushRace(state, [tuple(c) for c in c0], [tuple(c) for c in c1], atomic, packed)
     exp = sysched.Explorer(sc, 99)
     try:
         ex, viol = exp.replay(choices)
@@ -588,6 +640,13 @@ def run(ctx):
                 continue
             for atomic in (False, True):
                 items.append(("disk", state, False, cmds, atomic, False, True, "local-client"))
+    # histories of two pushes on one ref (update/delete/create chains over loose and packed refs)
+    r1cmds = [c for c in commands() if c[2] == R1 and c[1] != C3]
+    for state in server_states():
+        for packed in (False, True):
+            for a in r1cmds:
+                for b in r1cmds:
+                    items.append(("history", state, packed, [[a], [b]], False))
     tasks = split(ctx.order(items), ctx.jobs * 8)
     pmap_acc(work, tasks, ctx.acc, jobs=ctx.jobs)
     # races
@@ -601,6 +660,10 @@ def run(ctx):
                 races.append((state, [(c1, c2, R1), (c1, c2, R2)], [(c1, ZERO, R2)], atomic, 2))
                 races.append((state, [(c1, c2, R1), (c1, c2, R2)], [(c1, ZERO, R2), (c1, ZERO, R1)], atomic, 2))
     races.append(({}, [(ZERO, c1, RN)], [(ZERO, c2, RN)], False, 2 if q else 3))
+    # the same contention on refs that live only in packed-refs
+    races.append(({R1: c1}, [(c1, c2, R1)], [(c1, ZERO, R1)], False, 2 if q else 3, True))
+    races.append(({R1: c1}, [(c1, c2, R1)], [(c1, c2, R1)], False, 2 if q else 3, True))
+    races.append(({R1: c1, R2: c1}, [(c1, c2, R1), (c1, c2, R2)], [(c1, ZERO, R2), (c1, ZERO, R1)], True, 2, True))
     pmap_acc(work_race, ctx.order(races), ctx.acc, jobs=ctx.jobs)
     n = ctx.acc.n
     ctx.level = "model_checking"
